@@ -74,6 +74,11 @@ class SieveProgram(Program):
                 val = I(c, ty)
             return Ref([val], 0)
 
+        @M(r'^<(\w+) as Ord>::(max|min)$', regex=True)
+        def _(m, fr, a, mm):
+            c = m.binop('Lt' if mm.group(2) == 'min' else 'Gt', a[0], a[1])
+            return a[0] if m.branch_bool(c) else a[1]
+
         @M(r'^<std::ops::Range<usize> as IntoIterator>::into_iter$', regex=True)
         def _(m, fr, a, _m):
             return a[0]
